@@ -9,7 +9,7 @@ PROPS = "props/C03.v"
 SPEC_NAMES = set("""length keys add reverse type flatten min max sort unique transpose explode implode
 ascii_downcase ascii_upcase utf8bytelength tonumber abs has contains inside indices index rindex startswith
 endswith ltrimstr rtrimstr trimstr getpath split _add _subtract _multiply _divide _modulo _equal _notequal
-_less _greater _lesseq _greatereq _alternative _index _slice""".split())
+_less _greater _lesseq _greatereq _alternative _index _slice _min_by _max_by""".split())
 
 CALL = re.compile(r"^\(call (\S+) ")
 
